@@ -139,6 +139,26 @@ Proof. exact short_file_rejected_proof. Qed.
 Theorem zero_file_rejected : forall n, verify_ok (repeat 0 n) = false.
 Proof. exact zero_file_rejected_proof. Qed.
 
+(* P2.  A single changed byte of the payload is always detected. *)
+Theorem adler_detects_single_byte : forall l1 x y l2,
+  x < 256 -> y < 256 -> x <> y ->
+  verify_ok (l1 ++ y :: l2 ++ le32 (adler32 (l1 ++ x :: l2))) = false.
+Proof. exact adler_detects_single_byte_proof. Qed.
+
+(* The assumption on the opaque pickle is satisfiable for the model state
+   (a self-delimiting serialisation exists), so P1 is not vacuous ... *)
+Theorem pickle_assumption_satisfiable : forall s, ser_dec (seal (ser_enc s)) = Some s.
+Proof. exact ser_dec_enc. Qed.
+
+(* ... and P1 instantiated with it has no hypothesis left but [detectable]. *)
+Theorem recover_is_saved_snapshot_closed :
+  forall (norm : key -> key) (evs : list bevent),
+  b_detectable_run ser_enc ser_dec norm b_w0 evs ->
+  w_proc (fst (b_run ser_enc ser_dec norm b_w0 evs)) = None ->
+  exists s, fst (b_start ser_dec (w_fs (fst (b_run ser_enc ser_dec norm b_w0 evs)))) = SLoaded s /\
+            In s (b_candidates [init_state] (snd (b_run ser_enc ser_dec norm b_w0 evs))).
+Proof. exact (fun norm => recover_is_saved_snapshot_proof ser_enc ser_dec norm ser_dec_enc). Qed.
+
 (* ---- non-vacuity: concrete histories, evaluated *)
 
 (* the model's hard-wired constants are those of the current source *)
